@@ -523,45 +523,93 @@ mod store_level {
     use lumina_node::store::{RedbStore, Store};
     use std::sync::mpsc::{Receiver, Sender, channel};
 
-    /// What the blocking-pool threads do at the hook points inside `CounterGuard::drop`.
+    /// how long the harness waits for one acknowledgement / for close() to finish
+    pub const STEP_TIMEOUT: Duration = Duration::from_secs(5);
+    /// how long a blocking-pool thread stays parked at most (it is normally released by the harness)
+    const PARK_TIMEOUT: Duration = Duration::from_secs(20);
+    /// hard limit for one event order, enforced by a watchdog thread
+    pub const ORDER_TIMEOUT: Duration = Duration::from_secs(40);
+
+    #[derive(Clone, Copy, Debug, Serialize, Deserialize, PartialEq, Eq)]
+    pub enum Op {
+        /// `Store::head_height` (read_tx)
+        Read,
+        /// `Store::mark_as_sampled(1)` (write_tx)
+        Write,
+    }
+
+    #[derive(Clone, Copy, Debug, Serialize, Deserialize, PartialEq, Eq)]
+    pub enum Ev {
+        /// call `close()` (spawned as a task on the runtime)
+        Close,
+        /// coarse: release task i from `redb:tx-start`; it runs to the end of its closure
+        Finish(usize),
+        /// fine: release task i from `redb:tx-start`; it runs its transaction and then parks
+        /// before the decrement inside `CounterGuard::drop`
+        Run(usize),
+        /// fine: release task i up to (and including) its decrement
+        Take(usize),
+        /// fine: release task i's `notify_waiters`
+        Notify(usize),
+    }
+
+    /// What blocking-pool threads that execute a read_tx/write_tx closure do at the hook points.
     pub struct Gates {
-        /// the n-th thread to arrive at `guard:before-take` becomes task n
-        pub arrivals: AtomicUsize,
-        pub arrived_tx: Mutex<Sender<usize>>,
-        /// per task: release for the decrement, release for the notification
-        pub release_take: Vec<Mutex<Receiver<()>>>,
-        pub release_notify: Vec<Mutex<Receiver<()>>>,
-        /// per task: acknowledgements "decrement done", "notification done"
-        pub ack_tx: Mutex<Sender<(usize, &'static str)>>,
+        fine: bool,
+        arrivals: AtomicUsize,
+        arrived_tx: Mutex<Sender<usize>>,
+        release_start: Vec<Mutex<Receiver<()>>>,
+        release_take: Vec<Mutex<Receiver<()>>>,
+        release_notify: Vec<Mutex<Receiver<()>>>,
+        ack_tx: Mutex<Sender<(usize, &'static str)>>,
     }
 
     pub static GATES: Mutex<Option<Arc<Gates>>> = Mutex::new(None);
-    thread_local! { pub static MY_TASK: Cell<Option<usize>> = const { Cell::new(None) }; }
+    thread_local! {
+        /// Set at `redb:tx-start` on the blocking-pool thread that executes gated closure i.
+        /// Only threads with this mark are ever parked.
+        static MY_TASK: Cell<Option<usize>> = const { Cell::new(None) };
+    }
+
+    fn park(rx: &Mutex<Receiver<()>>) {
+        // Err(Disconnected) = the harness is tearing down; Err(Timeout) = safety net
+        let _ = rx.lock().unwrap().recv_timeout(PARK_TIMEOUT);
+    }
 
     pub fn gate(label: &'static str) {
-        if !label.starts_with("guard:") {
-            return;
-        }
         let Some(g) = GATES.lock().unwrap().clone() else { return };
         match label {
-            "guard:before-take" => {
+            "redb:tx-start" => {
                 let i = g.arrivals.fetch_add(1, Ordering::SeqCst);
-                if i >= g.release_take.len() {
-                    // not one of the two gated reads (e.g. the write_tx of RedbStore::new)
+                if i >= g.release_start.len() {
                     g.arrivals.fetch_sub(1, Ordering::SeqCst);
+                    MY_TASK.with(|m| m.set(None));
                     return;
                 }
                 MY_TASK.with(|m| m.set(Some(i)));
                 let _ = g.arrived_tx.lock().unwrap().send(i);
-                let _ = g.release_take[i].lock().unwrap().recv();
+                park(&g.release_start[i]);
             }
-            "guard:after-take" => {
+            "redb:tx-end" => {
                 if let Some(i) = MY_TASK.with(|m| m.get()) {
-                    let _ = g.ack_tx.lock().unwrap().send((i, "took"));
-                    let _ = g.release_notify[i].lock().unwrap().recv();
+                    let _ = g.ack_tx.lock().unwrap().send((i, "db-done"));
+                    if !g.fine {
+                        MY_TASK.with(|m| m.set(None));
+                    }
                 }
             }
-            "guard:after-notify" => {
+            "guard:before-take" if g.fine => {
+                if let Some(i) = MY_TASK.with(|m| m.get()) {
+                    park(&g.release_take[i]);
+                }
+            }
+            "guard:after-take" if g.fine => {
+                if let Some(i) = MY_TASK.with(|m| m.get()) {
+                    let _ = g.ack_tx.lock().unwrap().send((i, "took"));
+                    park(&g.release_notify[i]);
+                }
+            }
+            "guard:after-notify" if g.fine => {
                 if let Some(i) = MY_TASK.with(|m| m.take()) {
                     let _ = g.ack_tx.lock().unwrap().send((i, "notified"));
                 }
@@ -570,34 +618,28 @@ mod store_level {
         }
     }
 
-    #[derive(Clone, Copy, Debug, Serialize, Deserialize, PartialEq, Eq)]
-    pub enum Ev {
-        /// release task i up to (and including) its decrement
-        Take(usize),
-        /// release task i's `notify_waiters`
-        Notify(usize),
-        /// call `close()` (spawned as a task on the runtime)
-        Close,
-    }
-
-    /// All orders of the events, respecting Take(i) before Notify(i).
-    pub fn orders(tasks: usize) -> Vec<Vec<Ev>> {
+    /// All orders of the events (fine: Run(i) < Take(i) < Notify(i)), the ones that call
+    /// close() earliest first.
+    pub fn orders(tasks: usize, fine: bool) -> Vec<Vec<Ev>> {
         let mut evs = vec![Ev::Close];
         for i in 0..tasks {
-            evs.push(Ev::Take(i));
-            evs.push(Ev::Notify(i));
+            if fine {
+                evs.extend([Ev::Run(i), Ev::Take(i), Ev::Notify(i)]);
+            } else {
+                evs.push(Ev::Finish(i));
+            }
         }
+        let pos = |s: &[Ev], e: Ev| s.iter().position(|x| *x == e).unwrap();
         let mut out = vec![];
         for p in permutations(evs.len()) {
             let seq: Vec<Ev> = p.iter().map(|i| evs[*i]).collect();
-            let ok = (0..tasks).all(|t| {
-                seq.iter().position(|e| *e == Ev::Take(t)).unwrap() < seq.iter().position(|e| *e == Ev::Notify(t)).unwrap()
-            });
+            let ok = !fine
+                || (0..tasks).all(|t| pos(&seq, Ev::Run(t)) < pos(&seq, Ev::Take(t)) && pos(&seq, Ev::Take(t)) < pos(&seq, Ev::Notify(t)));
             if ok {
                 out.push(seq);
             }
         }
-        out.sort_by_key(|s| s.iter().position(|e| *e == Ev::Close).map(|p| s.len() - p));
+        out.sort_by_key(|s| pos(s, Ev::Close));
         out
     }
 
@@ -607,14 +649,18 @@ mod store_level {
         pub events: u64,
     }
 
+    fn expect_ack(rx: &Receiver<(usize, &'static str)>, i: usize, what: &'static str) {
+        match rx.recv_timeout(STEP_TIMEOUT) {
+            Ok((j, w)) if j == i && w == what => {}
+            other => panic!("harness protocol: task {i}: expected acknowledgement {what:?}, got {other:?}"),
+        }
+    }
+
     /// Runs one event order against a fresh store.  Must not run concurrently with another
     /// instance (the gate is process-wide).
-    pub fn run_order(tasks: usize, seq: &[Ev]) -> Outcome {
-        let rt = tokio::runtime::Builder::new_current_thread()
-            .enable_all()
-            .max_blocking_threads(8)
-            .build()
-            .unwrap();
+    pub fn run_order(ops: &[Op], fine: bool, seq: &[Ev]) -> Outcome {
+        let rt = tokio::runtime::Builder::new_current_thread().enable_all().max_blocking_threads(8).build().unwrap();
+        let tasks = ops.len();
         let mut violations = vec![];
         let mut events = 0u64;
         let class = rt.block_on(async {
@@ -622,118 +668,190 @@ mod store_level {
             let store = RedbStore::in_memory().await.expect("in-memory redb store");
             let (arrived_tx, arrived_rx) = channel();
             let (ack_tx, ack_rx) = channel();
-            let mut rel_take = vec![];
-            let mut rel_notify = vec![];
-            let mut rt_rx = vec![];
-            let mut rn_rx = vec![];
-            for _ in 0..tasks {
-                let (a, b) = channel::<()>();
-                rel_take.push(a);
-                rt_rx.push(Mutex::new(b));
-                let (a, b) = channel::<()>();
-                rel_notify.push(a);
-                rn_rx.push(Mutex::new(b));
-            }
+            let mk = |n: usize| {
+                let mut txs = vec![];
+                let mut rxs = vec![];
+                for _ in 0..n {
+                    let (a, b) = channel::<()>();
+                    txs.push(a);
+                    rxs.push(Mutex::new(b));
+                }
+                (txs, rxs)
+            };
+            let (rel_start, rs) = mk(tasks);
+            let (rel_take, rt_) = mk(tasks);
+            let (rel_notify, rn) = mk(tasks);
             *GATES.lock().unwrap() = Some(Arc::new(Gates {
+                fine,
                 arrivals: AtomicUsize::new(0),
                 arrived_tx: Mutex::new(arrived_tx),
-                release_take: rt_rx,
-                release_notify: rn_rx,
+                release_start: rs,
+                release_take: rt_,
+                release_notify: rn,
                 ack_tx: Mutex::new(ack_tx),
             }));
-            // start the reads one by one; each is polled until its blocking task is parked
-            // inside CounterGuard::drop, then the read future is cancelled (dropped)
-            for i in 0..tasks {
-                {
-                    let waker = futures::task::noop_waker();
-                    let mut cx = Context::from_waker(&waker);
-                    let mut read = pin!(store.head_height());
-                    let _ = read.as_mut().poll(&mut cx);
-                    match arrived_rx.recv_timeout(Duration::from_secs(20)) {
-                        Ok(j) if j == i => {}
-                        other => panic!("blocking task {i} did not reach the gate: {other:?}"),
+            // Start the operations one by one: poll the future once (that spawns the blocking
+            // closure), wait until the closure is parked at `redb:tx-start`, then cancel the
+            // operation by dropping its future.  The closure has started; its database work
+            // has not.
+            for (i, op) in ops.iter().enumerate() {
+                let waker = futures::task::noop_waker();
+                let mut cx = Context::from_waker(&waker);
+                match op {
+                    Op::Read => {
+                        let mut f = pin!(store.head_height());
+                        let _ = f.as_mut().poll(&mut cx);
+                        match arrived_rx.recv_timeout(STEP_TIMEOUT) {
+                            Ok(j) if j == i => {}
+                            other => panic!("harness protocol: blocking closure of read {i} did not reach redb:tx-start: {other:?}"),
+                        }
+                    }
+                    Op::Write => {
+                        let mut f = pin!(store.mark_as_sampled(1));
+                        let _ = f.as_mut().poll(&mut cx);
+                        match arrived_rx.recv_timeout(STEP_TIMEOUT) {
+                            Ok(j) if j == i => {}
+                            other => panic!("harness protocol: blocking closure of write {i} did not reach redb:tx-start: {other:?}"),
+                        }
                     }
                 }
             }
-            let took = std::cell::RefCell::new(vec![false; tasks]);
-            let notified = std::cell::RefCell::new(vec![false; tasks]);
+            // reference state, from the statement
+            let mut db_done = vec![false; tasks]; // the closure's transaction has finished
+            let mut took = vec![false; tasks];
+            let mut notified = vec![false; tasks];
             let mut close: Option<tokio::task::JoinHandle<bool>> = None;
             let mut store = Some(store);
             let mut returned_at: Option<usize> = None;
             for (pos, ev) in seq.iter().enumerate() {
                 events += 1;
-                match ev {
+                match *ev {
                     Ev::Close => {
                         let s = store.take().unwrap();
                         close = Some(tokio::spawn(async move { s.close().await.is_ok() }));
                     }
+                    Ev::Finish(i) | Ev::Run(i) => {
+                        let _ = rel_start[i].send(());
+                        expect_ack(&ack_rx, i, "db-done");
+                        db_done[i] = true;
+                    }
                     Ev::Take(i) => {
-                        rel_take[*i].send(()).unwrap();
-                        match ack_rx.recv_timeout(Duration::from_secs(20)) {
-                            Ok((j, "took")) if j == *i => took.borrow_mut()[*i] = true,
-                            other => panic!("task {i}: expected took ack, got {other:?}"),
-                        }
+                        let _ = rel_take[i].send(());
+                        expect_ack(&ack_rx, i, "took");
+                        took[i] = true;
                     }
                     Ev::Notify(i) => {
-                        rel_notify[*i].send(()).unwrap();
-                        match ack_rx.recv_timeout(Duration::from_secs(20)) {
-                            Ok((j, "notified")) if j == *i => notified.borrow_mut()[*i] = true,
-                            other => panic!("task {i}: expected notified ack, got {other:?}"),
-                        }
+                        let _ = rel_notify[i].send(());
+                        expect_ack(&ack_rx, i, "notified");
+                        notified[i] = true;
                     }
                 }
-                // settle: the close task only needs polls of this current-thread runtime
-                // (more yields than tokio's global-queue interval, so a wake-up sent from a blocking
-                // thread is certainly picked up)
-                for _ in 0..64 {
-                    tokio::task::yield_now().await;
+                let all_finished = if fine { notified.iter().all(|b| *b) } else { db_done.iter().all(|b| *b) };
+                // settle: more yields than tokio's global-queue interval, so a wake-up sent from a
+                // blocking thread is certainly picked up; once every task has finished, close()
+                // gets real time to return (the tail of a closure after `redb:tx-end` is not gated)
+                let t0 = Instant::now();
+                loop {
+                    for _ in 0..64 {
+                        tokio::task::yield_now().await;
+                    }
+                    let done = close.as_ref().is_some_and(|h| h.is_finished());
+                    if done || close.is_none() || !all_finished || t0.elapsed() > STEP_TIMEOUT {
+                        break;
+                    }
+                    tokio::time::sleep(Duration::from_millis(1)).await;
                 }
                 if let Some(h) = &close {
                     let done = h.is_finished();
-                    let all_took = took.borrow().iter().all(|b| *b);
-                    let all_notified = notified.borrow().iter().all(|b| *b);
                     if done && returned_at.is_none() {
                         returned_at = Some(pos);
                     }
-                    if done && !all_took {
+                    if done && !db_done.iter().all(|b| *b) {
+                        violations.push(viol(
+                            "store-close-returned-while-transaction-running",
+                            format!(
+                                "after {ev:?} (event {pos}) close() has returned although the blocking closures of operations {:?} ({ops:?}) have started and not finished their transaction (their futures were dropped)",
+                                (0..tasks).filter(|i| !db_done[*i]).collect::<Vec<_>>()
+                            ),
+                        ));
+                    } else if done && fine && !took.iter().all(|b| *b) {
                         violations.push(viol(
                             "store-close-returned-before-task-finished",
-                            format!("after {:?} (event {pos}) close() had returned but decrements done = {:?}", ev, took.borrow()),
+                            format!("after {ev:?} (event {pos}) close() has returned but decrements done = {took:?}"),
                         ));
                     }
-                    if !done && all_notified {
+                    if !done && all_finished {
                         violations.push(viol(
                             "store-close-hangs-after-all-tasks-finished",
-                            format!("after {:?} (event {pos}) every blocking task has finished but close() has not returned", ev),
+                            format!("after {ev:?} (event {pos}) every blocking task has finished but close() has not returned within {STEP_TIMEOUT:?}"),
                         ));
                     }
+                }
+                if !violations.is_empty() {
+                    break; // the rest of the order would only produce protocol noise
                 }
             }
             *GATES.lock().unwrap() = None;
             if let Some(h) = close {
                 if h.is_finished() {
-                    let ok = h.await.unwrap_or(false);
-                    if !ok {
+                    if !h.await.unwrap_or(false) {
                         violations.push(viol("store-close-error", "close() returned an error".to_string()));
                     }
                 } else {
                     h.abort();
                 }
             }
+            // dropping the release senders (end of this block) wakes every thread still parked
             match returned_at {
                 Some(p) => format!(
                     "store:close-returned-after-{}",
                     match seq[p] {
                         Ev::Close => "close-call",
+                        Ev::Finish(_) | Ev::Run(_) => "transaction-end",
                         Ev::Take(_) => "decrement",
                         Ev::Notify(_) => "notification",
                     }
                 ),
-                None => "store:close-never-returned".to_string(),
+                None => "store:close-not-returned".to_string(),
             }
         });
         drop(rt);
         Outcome { class, violations, events }
+    }
+
+    /// `run_order` under a watchdog: a hang of any kind ends the process with a machinery
+    /// error after `ORDER_TIMEOUT` instead of blocking the check.
+    pub fn run_order_guarded(id: &str, ops: &[Op], fine: bool, seq: &[Ev]) -> Outcome {
+        let (tx, rx) = channel();
+        let (o, s) = (ops.to_vec(), seq.to_vec());
+        std::thread::spawn(move || {
+            let _ = tx.send(guard(|| run_order(&o, fine, &s)));
+        });
+        match rx.recv_timeout(ORDER_TIMEOUT) {
+            Ok(Ok(out)) => out,
+            Ok(Err(p)) => machinery_error(id, &format!("store-level run {ops:?} fine={fine} {seq:?} failed: {p}")),
+            Err(_) => machinery_error(id, &format!("store-level run {ops:?} fine={fine} {seq:?} hung for {ORDER_TIMEOUT:?}")),
+        }
+    }
+
+    /// (operations, fine-grained?) in the order they are explored
+    pub fn plans(thorough: bool) -> Vec<(Vec<Op>, bool)> {
+        use Op::*;
+        let singles = vec![vec![Read], vec![Write]];
+        let pairs = vec![vec![Read, Read], vec![Read, Write], vec![Write, Read], vec![Write, Write]];
+        let mut v = vec![];
+        for o in singles.iter().chain(&pairs) {
+            v.push((o.clone(), false));
+        }
+        for o in &singles {
+            v.push((o.clone(), true));
+        }
+        for o in &pairs {
+            if thorough || *o == vec![Read, Write] {
+                v.push((o.clone(), true));
+            }
+        }
+        v
     }
 }
 
@@ -833,15 +951,52 @@ fn main() {
                 rep.violation(key, format!("{} [{}] events: {}", what, cfg.name(), log.join(" ")), c.clone());
             }
         } else {
-            let tasks = c["tasks"].as_u64().unwrap() as usize;
+            let ops: Vec<store_level::Op> = serde_json::from_value(c["ops"].clone()).unwrap();
+            let fine = c["fine"].as_bool().unwrap_or(false);
             let seq: Vec<store_level::Ev> = serde_json::from_value(c["order"].clone()).unwrap();
-            let out = store_level::run_order(tasks, &seq);
+            let out = store_level::run_order_guarded(&ctx.id, &ops, fine, &seq);
             rep.case_nokey(&out.class);
             for (k, w) in out.violations {
                 rep.violation(&k, w, c.clone());
             }
         }
         finish(&ctx, rep, spec());
+    }
+
+    // ---- part 2 (store level) runs first: thread creation and mmap get an order of magnitude
+    // slower in this process after the millions of shuttle executions of part 1
+    {
+        let t0 = Instant::now();
+        let mut store_runs = 0u64;
+        let mut store_events = 0u64;
+        'outer: for (ops, fine) in store_level::plans(!ctx.quick()) {
+            for seq in store_level::orders(ops.len(), fine) {
+                if t0.elapsed() > Duration::from_secs(ctx.tier.pick(25, 120)) {
+                    rep.cap_hit("store-level wall cap");
+                    break 'outer;
+                }
+                let out = store_level::run_order_guarded(&ctx.id, &ops, fine, &seq);
+                store_runs += 1;
+                store_events += out.events;
+                rep.case_nokey(&out.class);
+                let case = json!({"part": "store", "ops": ops, "fine": fine, "order": seq});
+                if rep.samples.len() < 10 && store_runs % 23 == 1 {
+                    rep.samples.push(json!({"case": case, "class": out.class}));
+                }
+                let bad = !out.violations.is_empty();
+                for (k, w) in out.violations {
+                    rep.violation(&k, w, case.clone());
+                }
+                if bad {
+                    break 'outer; // simplest-first: the first failing order is the counterexample
+                }
+            }
+        }
+        rep.states += store_runs;
+        rep.transitions += store_events;
+        rep.traces += store_runs;
+        rep.extra("store_level_orders", json!(store_runs));
+        rep.extra("store_level_wall_s", json!(t0.elapsed().as_secs_f64()));
     }
 
     // ---- part 1
@@ -853,7 +1008,6 @@ fn main() {
     let mut total_schedules = 0u64;
     let mut total_steps = 0u64;
     let mut nontrivial = 0u64;
-    let mut failed = false;
     let mut group_traces: BTreeMap<u32, (String, HashSet<u64>)> = BTreeMap::new();
     let mut distinct_orders = 0u64;
     for (cfg, depth, group) in configs(ctx.tier) {
@@ -933,63 +1087,31 @@ fn main() {
             if let Err(m) = report_failure(&mut rep, cfg, &msg, &choices) {
                 machinery_error(&ctx.id, &m);
             }
-            failed = true;
             break; // simplest-first: later configurations are larger versions of the same protocol
         }
     }
-    rep.states = total_schedules;
-    rep.transitions = total_steps;
-    rep.traces = total_schedules;
+    rep.states += total_schedules;
+    rep.transitions += total_steps;
+    rep.traces += total_schedules;
     rep.extra("distinct_by_construction", json!(total_schedules));
     rep.extra("distinct_nontrivial_by_construction", json!(nontrivial));
     rep.extra("counter_level_configs", json!(per_cfg));
     rep.extra("hook_labels", json!(LABELS));
     rep.extra("distinct_orders_of_shared_steps_total", json!(distinct_orders));
 
-    // ---- part 2
-    if !failed {
-        let t0 = Instant::now();
-        let mut store_runs = 0u64;
-        let mut store_events = 0u64;
-        'outer: for tasks in 1..=2usize {
-            for seq in store_level::orders(tasks) {
-                if t0.elapsed() > Duration::from_secs(ctx.tier.pick(15, 60)) {
-                    rep.cap_hit("store-level wall cap");
-                    break 'outer;
-                }
-                let out = match guard(|| store_level::run_order(tasks, &seq)) {
-                    Ok(o) => o,
-                    Err(p) => machinery_error(&ctx.id, &format!("store-level run {seq:?} failed: {p}")),
-                };
-                store_runs += 1;
-                store_events += out.events;
-                rep.case_nokey(&out.class);
-                if rep.samples.len() < 8 && store_runs % 7 == 1 {
-                    rep.samples.push(json!({"part": "store", "tasks": tasks, "order": seq, "class": out.class}));
-                }
-                for (k, w) in out.violations {
-                    rep.violation(&k, w, json!({"part": "store", "tasks": tasks, "order": seq}));
-                }
-            }
-        }
-        rep.states += store_runs;
-        rep.transitions += store_events;
-        rep.traces += store_runs;
-        rep.extra("store_level_orders", json!(store_runs));
-        rep.extra("store_level_wall_s", json!(t0.elapsed().as_secs_f64()));
-    }
     set_sched_hook(None);
     finish(&ctx, rep, spec());
 }
 
 fn spec() -> Spec<'static> {
     Spec {
-        rule: "Part 1 (E5): for each configuration (G guards created before the wait, p of them dropped on the waiter's thread before the wait, optional 'rewait' variant = a first wait polled once and cancelled, one more guard created and handed to a thread, second wait; hook-point set) EVERY schedule of {waiter, one thread per remaining guard} over the scheduling points {thread start/end, join, block on a pending future, every enabled sched_point label} is executed on the real Counter (depth-first search over scheduler choices, no preemption bound, partitioned by choice prefix over all cores; schedule counts cross-checked against shuttle's own DfsScheduler up to 3*10^5). Point sets: full = one point before every shared-memory step (take, notify_waiters, notified(), strong_count, poll of notified, re-arm); min = full minus guard:before-take (which directly follows the thread-start scheduling point); all = all 8 labels. Within a group (same G, p, variant) all point sets must reach the identical set of orders of shared-memory steps, else machinery error. quick: G<=2 x p<=G {full,min} (+all for p=0), rewait G<=1 {full,min}, G=3 p in {1,2} {full,min}, G=3 p=0 min, rewait G=2 min; thorough adds G=4 p in {1,2,3} min, G=3 p=0 full (64.4M schedules, compared with min) and G=4 p=0 min (147.9M schedules). One schedule = one state, one scheduler decision = one transition; distinct by construction (the DFS never repeats a choice vector); non-trivial = schedules in which the waiter actually blocked at least once. Part 2 (E3): real RedbStore (in-memory backend), 1..2 cancelled reads whose spawn_blocking tasks are parked inside CounterGuard::drop; every order of {close, take_i, notify_i} (take_i before notify_i; 3 + 30 orders), oracle after every event.",
+        rule: "Part 1 (E5): for each configuration (G guards created before the wait, p of them dropped on the waiter's thread before the wait, optional 'rewait' variant = a first wait polled once and cancelled, one more guard created and handed to a thread, second wait; hook-point set) EVERY schedule of {waiter, one thread per remaining guard} over the scheduling points {thread start/end, join, block on a pending future, every enabled sched_point label} is executed on the real Counter (depth-first search over scheduler choices, no preemption bound, partitioned by choice prefix over all cores; schedule counts cross-checked against shuttle's own DfsScheduler up to 3*10^5). Point sets: full = one point before every shared-memory step (take, notify_waiters, notified(), strong_count, poll of notified, re-arm); min = full minus guard:before-take (which directly follows the thread-start scheduling point); all = all 8 labels. Within a group (same G, p, variant) all point sets must reach the identical set of orders of shared-memory steps, else machinery error. quick: G<=2 x p<=G {full,min} (+all for p=0), rewait G<=1 {full,min}, G=3 p in {1,2} {full,min}, G=3 p=0 min, rewait G=2 min; thorough adds G=4 p in {1,2,3} min, G=3 p=0 full (64.4M schedules, compared with min) and G=4 p=0 min (147.9M schedules). One schedule = one state, one scheduler decision = one transition; distinct by construction (the DFS never repeats a choice vector); non-trivial = schedules in which the waiter actually blocked at least once. Part 2 (E3): real RedbStore (in-memory backend); 1..2 operations (read = head_height via read_tx, write = mark_as_sampled via write_tx; every sequence of kinds) are started, their spawn_blocking closures parked at redb:tx-start, and their futures dropped; then EVERY order of the events is executed, oracle after every event: coarse events {close, finish_i} for all kind sequences (2*2 + 4*6 orders), fine events {close, run_i < take_i < notify_i} (parking also before the decrement and before notify_waiters inside CounterGuard::drop) for 1 task (2*4 orders) and the pair read+write (140 orders; thorough: all 4 pairs). Oracle: close() has not returned while a started closure has not finished its transaction (fine: has not decremented); close() has returned (within 5 s) once all have finished. Every order runs under a 40 s watchdog.",
         assumptions: &[
             "tokio::sync::Notify and Arc operations are atomic at the granularity of the hook points (tokio model-checks Notify with loom upstream)",
             "scheduling points exist only where the hooks are: between the statements of CounterGuard::drop and Counter::wait_guards, not inside Notify",
             "one waiter (close(self) consumes the store, so there is never a second one)",
-            "store level: blocking tasks are paused only at the hook points inside CounterGuard::drop, i.e. after the redb transaction body has run",
+            "store level: a blocking closure is paused only at redb:tx-start (closure started, transaction not begun) and, in the fine-grained orders, at the two points inside CounterGuard::drop; only blocking-pool threads that passed redb:tx-start of a gated operation are ever paused",
+            "store level: 'finished' = the closure's transaction scope has ended (redb:tx-end); afterwards close() gets up to 5 s of real time to return",
         ],
         required_classes: &["returned:without-blocking", "returned:after-1-wakeups", "returned:after-2-wakeups", "store:close-returned-after-*"],
         exhaustive: true,
